@@ -555,6 +555,7 @@ def c04(tier, seed):
                 ("c04-tr-ring-long", dict(MaxSend=1, Depth=2, BadBudget=1, SetBudget=0, SmallBufs=True, PayBase=300,
                                           backends="mix-sample")),
                 ("c04-rekey", dict(MaxSend=1, Depth=4, BadBudget=0, SetBudget=0, RekeyBudget=2, SmallBufs=False)),
+                ("c04-sl-rekey", dict(Stateful=False, MaxSend=1, Depth=3, BadBudget=0, SetBudget=0, RekeyBudget=1, SmallBufs=False)),
                 ("c04-top", dict(NonceMode="top", MaxSend=2, Depth=4, BadBudget=0, SetBudget=1, SmallBufs=False))]
     else:
         cfgs = [("c04-tr", dict(MaxSend=2, Depth=5, BadBudget=2, SetBudget=1, SmallBufs=False)),
@@ -566,7 +567,8 @@ def c04(tier, seed):
                 ("c04-tr-ring", dict(MaxSend=2, Depth=4, BadBudget=1, SetBudget=1, SmallBufs=False, backends="mix-sample")),
                 ("c04-tr-ring-long", dict(MaxSend=2, Depth=3, BadBudget=1, SetBudget=0, SmallBufs=True, PayBase=300, backends="mix")),
                 ("c04-top", dict(NonceMode="top", MaxSend=2, Depth=5, BadBudget=1, SetBudget=1, SmallBufs=False)),
-                ("c04-rekey", dict(MaxSend=2, Depth=5, BadBudget=1, SetBudget=0, RekeyBudget=2, SmallBufs=False))]
+                ("c04-rekey", dict(MaxSend=2, Depth=5, BadBudget=1, SetBudget=0, RekeyBudget=2, SmallBufs=False)),
+                ("c04-sl-rekey", dict(Stateful=False, MaxSend=1, Depth=4, BadBudget=1, SetBudget=0, RekeyBudget=2, SmallBufs=False))]
     tl, rl = tlegs("C04", seed, cfgs, per_scn=1 if tier == "quick" else 2)
     # the transport keys must be the session's whatever was QUERIED on the way: a raw-split query at any earlier point
     # of the handshake, then the rest of the handshake and traffic in both directions, compared byte for byte
